@@ -23,6 +23,11 @@ def jobs_for(inst, rng, n, crash_frac=0.25):
             # narrowed reuse scopes (nodes are composed during the run, so the run parameter reaches them)
             # (scopes with both own and shared: the environment model's scan answers from the own and the shared pool)
             rp["pool_scope"] = rng.choice(["own shared", "own swarm shared", "own cluster shared"])
+        if i % 4 == 1:
+            # retries (a worker may meet a setup test that another worker is running or has tried)
+            rp["max_tries"] = str(rng.choice([2, 3]))
+            if rng.random() < 0.7:
+                rp["rerun_status"] = rng.choice(["fail,error", "fail", "fail,error,warn"])
         jobs.append({"sched": {"seed": rng.randrange(1 << 30), "statuses": ["PASS", "FAIL", "ERROR", "WARN"], "weights": [8, 1, 1, 1]},
                      "store": D.random_store(inst, rng, rng.choice([0.0, 0.0, 0.3, 0.6, 0.9])), "run_params": rp})
     return jobs
